@@ -186,4 +186,129 @@ def rule_collide(ctx) -> RuleResult:
     return res
 
 
-RULES = [rule_inv, rule_collide]
+def rule_flat(ctx) -> RuleResult:
+    res = RuleResult(
+        "C14.FLAT",
+        "C14",
+        "(a) inf2str can emit every token str2inf reads back (both signs of infinity); (b) in flatten a form's value is "
+        "None exactly when the form's own `enabled` state is false — the test depends on no other member of the form; "
+        "(c) every validation_options.get(key, default) agrees with the default declared by the validation_options "
+        "getter (the option InputFile.data saves and restores around flatten must be restored to what it was)",
+        floor=5,
+    )
+    p = ctx.p
+    um = p.module("shared/utils.py")
+    uj = p.module("ui_json/utils.py")
+    # (a) tokens
+    i2s, s2i = um.functions.get("inf2str"), uj.functions.get("str2inf")
+    if i2s is None or s2i is None:
+        raise AnalysisError("anchors shared.utils.inf2str / ui_json.utils.str2inf not found")
+    prm = i2s.params[0]
+    rtok = {e.value for n in ast.walk(s2i.node) if isinstance(n, (ast.List, ast.Tuple, ast.Set)) for e in n.elts if isinstance(e, ast.Constant)}
+    generic = any(isinstance(c, ast.Call) and isinstance(c.func, ast.Name) and c.func.id in ("str", "repr") and c.args and unparse(c.args[0]) == prm
+                  for r in ast.walk(i2s.node) if isinstance(r, ast.Return) and r.value is not None for c in ast.walk(r.value))
+    consts = {c.value for r in ast.walk(i2s.node) if isinstance(r, ast.Return) and r.value is not None for c in ast.walk(r.value)
+              if isinstance(c, ast.Constant) and isinstance(c.value, str)}
+    ok = generic or (rtok and rtok <= consts)
+    res.inst(f"inf2str emits {'str(value)' if generic else sorted(consts)}; str2inf reads {sorted(rtok)}", nontrivial=True, ok=bool(ok))
+    if not ok:
+        res.find("utils", "inf2str", f"writer tokens {sorted(consts)} do not cover the reader's {sorted(rtok)}", i2s.where,
+                 "one sign of infinity is written with the other's token (or not at all): -inf does not survive write -> read")
+    # (b) flatten
+    fl = uj.functions.get("flatten")
+    if fl is None:
+        raise AnalysisError("anchor ui_json.utils.flatten not found")
+
+    def is_none_store(st):
+        return isinstance(st, ast.Assign) and isinstance(st.targets[0], ast.Subscript) and isinstance(st.value, ast.Constant) and st.value.value is None
+
+    def truth_member(e, aliases):
+        """member name if e is truth(ui_json, name, "<member>") or a local bound to it"""
+        if isinstance(e, ast.Name) and e.id in aliases:
+            e = aliases[e.id]
+        if isinstance(e, ast.Call) and getattr(e.func, "id", None) == "truth" and len(e.args) == 3 and isinstance(e.args[2], ast.Constant):
+            return e.args[2].value
+        return None
+
+    aliases = {}
+    for n in ast.walk(fl.node):
+        if isinstance(n, ast.Assign) and len(n.targets) == 1 and isinstance(n.targets[0], ast.Name) and isinstance(n.value, ast.Call) and getattr(n.value.func, "id", None) == "truth":
+            aliases[n.targets[0].id] = n.value
+    gates = [n for n in ast.walk(fl.node) if isinstance(n, ast.If) and (any(is_none_store(s) for s in n.body) or any(is_none_store(s) for s in n.orelse))]
+    if not gates:
+        raise AnalysisError("ui_json.utils.flatten: the branch storing None for disabled forms was not recognised")
+    for gt in gates:
+        none_in_body = any(is_none_store(s) for s in gt.body)
+        t = gt.test
+        neg = False
+        while isinstance(t, ast.UnaryOp) and isinstance(t.op, ast.Not):
+            neg = not neg
+            t = t.operand
+        m = truth_member(t, aliases)
+        if m is not None:
+            ok = m == "enabled" and (neg == none_in_body)
+            res.inst(f"flatten:{gt.lineno} None stored iff not truth(.., 'enabled')", nontrivial=True, ok=ok)
+            if not ok:
+                res.find("utils", "flatten", f"None is stored under `{unparse(gt.test)[:60]}`", f"{uj.relpath}:{gt.lineno}",
+                         "the flattened value is None for enabled forms / live for disabled ones")
+        elif isinstance(t, ast.BoolOp):
+            ms = [truth_member(v.operand if isinstance(v, ast.UnaryOp) else v, aliases) for v in t.values]
+            if all(x is not None for x in ms):
+                others = [x for x in ms if x != "enabled"]
+                res.inst(f"flatten:{gt.lineno} None gate depends on {ms}", nontrivial=True, ok=not others)
+                if others:
+                    res.find("utils", "flatten", f"the None gate also depends on the form member(s) {others}", f"{uj.relpath}:{gt.lineno}",
+                             f"a disabled form flattens to None only when {others} also has a given state: disabled members of an optional group or "
+                             "dependency-disabled forms come back with live values and are re-enabled on the next write")
+            else:
+                raise AnalysisError(f"ui_json.utils.flatten:{gt.lineno}: None gate `{unparse(gt.test)[:60]}` not recognised")
+        else:
+            raise AnalysisError(f"ui_json.utils.flatten:{gt.lineno}: None gate `{unparse(gt.test)[:60]}` not recognised")
+    # (c) option defaults
+    IF = p.cls("InputFile")
+    vg = IF.props["validation_options"].getter
+    defaults = {}
+    for n in ast.walk(vg.node):
+        if isinstance(n, ast.Dict) and n.keys and all(isinstance(k, ast.Constant) for k in n.keys):
+            for k, v in zip(n.keys, n.values):
+                defaults[k.value] = unparse(v)
+    if "update_enabled" not in defaults:
+        raise AnalysisError("InputFile.validation_options: default dictionary not found")
+    nsite = 0
+    for fn in p.all_functions():
+        if not fn.module.relpath.startswith("geoh5py/ui_json"):
+            continue
+        for c in ast.walk(fn.node):
+            if isinstance(c, ast.Call) and isinstance(c.func, ast.Attribute) and c.func.attr == "get" and unparse(c.func.value).endswith("validation_options") \
+                    and c.args and isinstance(c.args[0], ast.Constant) and c.args[0].value in defaults:
+                k = c.args[0].value
+                d = unparse(c.args[1]) if len(c.args) > 1 else "None"
+                ok = d == defaults[k]
+                nsite += 1
+                res.inst(f"{fn.qualname}:{c.lineno} validation_options.get({k!r}, {d}) vs declared default {defaults[k]}", nontrivial=True, ok=ok)
+                if not ok:
+                    res.find(fn.cls.name if fn.cls else "ui_json", fn.name, f"validation_options.get({k!r}, {d}) disagrees with the declared default {defaults[k]}",
+                             f"{fn.module.relpath}:{c.lineno}",
+                             f"when the caller's options omit {k!r}, this site assumes {d} while the option's documented default is {defaults[k]}: "
+                             "after the first read of .data the enabled states stop following the values on write")
+    if nsite < 2:
+        raise AnalysisError("validation_options.get(...) sites not found")
+    # save / restore around flatten in the data getter
+    dg = IF.props["data"].getter
+    saves = [n for n in ast.walk(dg.node) if isinstance(n, ast.Assign) and isinstance(n.targets[0], ast.Name) and "validation_options" in unparse(n.value) and "update_enabled" in unparse(n.value)]
+    if saves:
+        nm = saves[0].targets[0].id
+        from ..cfg import CFG
+        from ..kinds import reach
+        g = CFG(dg.node)
+        offs = [n for n in g.nodes if isinstance(n.ast, ast.Assign) and "update_enabled" in unparse(n.ast.targets[0]) and unparse(n.ast.value) == "False"]
+        rest = lambda n: isinstance(n.ast, ast.Assign) and "update_enabled" in unparse(n.ast.targets[0]) and unparse(n.ast.value) == nm
+        ok = bool(offs) and all(g.exit not in reach(g, [m for m, _ in o.succ], avoid=rest) for o in offs)
+        res.inst("InputFile.data: update_enabled switched off is restored to the saved value on every normal path", nontrivial=True, ok=ok)
+        if not ok:
+            res.find("InputFile", "data", "update_enabled is switched off and not restored", dg.where,
+                     "after the first read of .data, writes no longer update the enabled states from the values")
+    return res
+
+
+RULES = [rule_inv, rule_collide, rule_flat]
